@@ -27,7 +27,8 @@ Locs == { <<>>, <<104, 116, 116, 112, 58, 47, 47, 120>> }
 \* base header entries the caller may already have put in either bucket
 BaseEntries(t) ==
   { <<L(t, 1), AlgT(6)>>, <<L(t, 3), GoStr(<<97, 47, 98>>)>>, <<L(t, 4), GoBytes(<<49>>)>>, <<L(t, 99), GoInt("int64", 7)>>,
-    <<L(t, 258), AlgT(15)>>, <<L(t, 259), GoInt("int64", 1)>>, <<L(t, 260), GoStr(<<122>>)>> } \cup (IF t = "int64" THEN {<<GoStr(<<120>>), GoInt("int64", 1)>>} ELSE {})
+    <<L(t, 258), AlgT(15)>>, <<L(t, 259), GoInt("int64", 1)>>, <<L(t, 260), GoStr(<<122>>)>>,
+    <<L(t, 258), [t |-> "nil"]>>, <<L(t, 259), [t |-> "nil"]>>, <<L(t, 260), [t |-> "nil"]>> } \cup (IF t = "int64" THEN {<<GoStr(<<120>>), GoInt("int64", 1)>>} ELSE {})
 \* raw buckets a caller may supply (RawProtected is documented to be ignored; RawUnprotected must not smuggle governed labels)
 RawU == { <<>>, <<161, 25, 1, 2, 1>>, <<161, 4, 65, 49>>, <<161, 3, 0>> }      \* none, {258: 1}, {4: h'31'}, {3: 0}
 RawP == { <<>>, <<67, 161, 1, 38>> }
@@ -38,9 +39,9 @@ ProducerProg(P, U, rawP, rawU, hp) ==
      [op |-> "verifyhashenv", obj |-> "r", buf |-> "b", verifiers |-> <<Vf>>] >>
 
 \* consumer side: governed labels in a validly signed message
-V258 == { AlgT(15), GoNeg("int64", 42), GoInt("int64", 99), GoStr(<<83>>), GoBytes(<<1>>), [t |-> "simple", v |-> 16] }
-V259 == { GoInt("int64", 50), GoStr(<<97, 47, 98>>), GoNeg("int64", 0), GoBytes(<<1>>), [t |-> "simple", v |-> 16], [t |-> "bool", v |-> TRUE] }
-V260 == { GoStr(<<122>>), GoInt("int64", 1) }
+V258 == { AlgT(15), GoNeg("int64", 42), GoInt("int64", 99), GoStr(<<83>>), GoBytes(<<1>>), [t |-> "simple", v |-> 16], [t |-> "nil"] }
+V259 == { GoInt("int64", 50), GoStr(<<97, 47, 98>>), GoStr(<<>>), GoNeg("int64", 0), GoBytes(<<1>>), [t |-> "simple", v |-> 16], [t |-> "bool", v |-> TRUE], [t |-> "nil"] }
+V260 == { GoStr(<<122>>), GoStr(<<>>), GoInt("int64", 1), [t |-> "nil"] }
 Opt(S) == S \cup {Absent}
 Entry(n, v) == IF v.t = "absent" THEN <<>> ELSE <<<<L("int64", n), v>>>>
 ConsumerProg(P, U, n) ==
@@ -60,7 +61,8 @@ PickProdRest == st.phase = 1 /\ st.side = "producer" /\
    \/ \E alg \in {0 - 16, 99, 0} : \E pct \in {Absent, GoInt("uint16", 50)} : \E loc \in Locs : \E rp \in RawP : \E ru \in RawU : \E n \in {32, 5} :
         (n = 32 \/ (rp = <<>> /\ ru = <<>>)) /\ st' = [st EXCEPT !.phase = 2] @@ [hp |-> Hp(alg, n, pct, loc), rawP |-> rp, rawU |-> ru]
 PickCons == st.phase = 0 /\ \E a \in Opt(V258) : \E b \in Opt(V259) : \E c \in Opt(V260) : \E ct \in Opt({GoInt("int64", 0)}) :
-               \E u \in {<<>>} \cup {Entry(258, AlgT(15)), Entry(259, GoInt("int64", 1)), Entry(260, GoStr(<<122>>)), Entry(3, GoInt("int64", 0)), Entry(4, GoBytes(<<1>>))} :
+               \E u \in {<<>>} \cup {Entry(258, AlgT(15)), Entry(259, GoInt("int64", 1)), Entry(260, GoStr(<<122>>)), Entry(3, GoInt("int64", 0)), Entry(4, GoBytes(<<1>>)),
+                                   Entry(258, [t |-> "nil"]), Entry(259, [t |-> "nil"]), Entry(260, [t |-> "nil"]), Entry(3, [t |-> "nil"])} :
                \E n \in {32, 31, 48, 0} :
                st' = [phase |-> 2, side |-> "consumer", P |-> <<<<L("int64", 1), AlgT(6)>>>> \o Entry(258, a) \o Entry(259, b) \o Entry(260, c) \o Entry(3, ct), U |-> u, n |-> n]
 Next == PickProdBase \/ PickProdRest \/ PickCons
